@@ -43,9 +43,10 @@ def contents(pair, rng):
 
 
 class ResolverTap:
-    def __init__(self, behaviour, merged):
+    def __init__(self, behaviour, merged, rewind=True):
         self.behaviour = behaviour
         self.merged = merged
+        self.rewind = rewind            # False: a resolver that reads both versions and hands one back as it is
         self.calls = []
         self.n = 0
 
@@ -55,7 +56,8 @@ class ResolverTap:
         for f in (f1, f2):
             f.seek(0)
             rec[f.side] = {"bytes": f.read(), "path": f.path}
-            f.seek(0)
+            if self.rewind:
+                f.seek(0)
         self.calls.append(rec)
         by_side = {f1.side: f1, f2.side: f2}
         b = self.behaviour
@@ -111,7 +113,7 @@ def run_cell(shape, pair, behaviour, flavour, seed, k, acc=None, count=True):
     rng = random.Random("%s:C05:%s:%s:%s:%s:%d" % (seed, shape, pair, behaviour, flavour, k))
     a, b = contents(pair, rng)
     merged = b"merged:" + a[:10] + b[:10]
-    tap = ResolverTap(behaviour, merged)
+    tap = ResolverTap(behaviour, merged, rewind=(k % 3 != 2))
     # every other schedule pairs providers with different hash algorithms (the two sides' hashes are then incomparable:
     # "identical content" can only be established by hashing the downloaded bytes with the right provider)
     import hashlib
